@@ -293,7 +293,7 @@ func (b zzBox) Pair() (int64, string) { return b.A, b.B }
 type zzStack []int64
 
 func (s *zzStack) Push(vs ...int64) int64 { *s = append(*s, vs...); return int64(len(*s)) }
-func (s zzStack) Top() int64             { return s[len(s)-1] }
+func (s zzStack) Top() int64              { return s[len(s)-1] }
 
 type zzCounter int64
 
